@@ -1,0 +1,23 @@
+//! Read-only inspection hooks for external verification tooling.
+//! Compiled only with the cargo feature `verif`; nothing here changes behaviour.
+
+/// Raw contents of one arena slot.
+#[derive(Clone, Debug)]
+pub struct VerifNode<T> {
+    pub parent: u32,
+    pub left: u32,
+    pub right: u32,
+    pub red: bool,
+    pub entity: T,
+}
+
+/// Raw contents of an arena-backed tree.
+#[derive(Clone, Debug)]
+pub struct VerifSnapshot<T> {
+    pub root: u32,
+    /// one entry per arena slot, slot 0 included
+    pub nodes: Vec<VerifNode<T>>,
+    /// the free list, bottom of the stack first
+    pub unused: Vec<u32>,
+    pub unused_capacity: usize,
+}
